@@ -1088,7 +1088,7 @@ def _minmax(fn, e):
     return None
 
 
-def upper_bounds(fn, e, depth=0):
+def upper_bounds(fn, e, depth=0, selfref=None):
     """Names (rendered locals/captures) known to be >= e by the shape of e; '*' stands for 'any non-negative bound' (e is
     a literal 0)."""
     e = q.strip_casts(e)
@@ -1098,18 +1098,20 @@ def upper_bounds(fn, e, depth=0):
         e = q.strip_casts(e['args'][0])
     mm = _minmax(fn, e)
     if mm:
-        a, b = upper_bounds(fn, mm[1], depth + 1), upper_bounds(fn, mm[2], depth + 1)
+        a, b = upper_bounds(fn, mm[1], depth + 1, selfref), upper_bounds(fn, mm[2], depth + 1, selfref)
         if mm[0] == 'min':
             return a | b
         return (a & b) | (a if '*' in b else set()) | (b if '*' in a else set())
     if e['k'] == 'int' and e.get('v') == 0:
         return {'*'}
     if e['k'] in ('ref', 'member'):
+        if selfref is not None and e['k'] == 'ref' and e.get('did') == selfref[0]:
+            return {q.render(fn, e)} | selfref[1]()       # the variable's own earlier value: whatever bounded it before
         return {q.render(fn, e)}
     return set()
 
 
-def nonneg(fn, e, nonneg_names, depth=0):
+def nonneg(fn, e, nonneg_names, depth=0, selfref=None):
     e = q.strip_casts(e)
     if not is_node(e) or depth > 8:
         return False
@@ -1117,10 +1119,12 @@ def nonneg(fn, e, nonneg_names, depth=0):
         e = q.strip_casts(e['args'][0])
     mm = _minmax(fn, e)
     if mm:
-        a, b = nonneg(fn, mm[1], nonneg_names, depth + 1), nonneg(fn, mm[2], nonneg_names, depth + 1)
+        a, b = nonneg(fn, mm[1], nonneg_names, depth + 1, selfref), nonneg(fn, mm[2], nonneg_names, depth + 1, selfref)
         return (a or b) if mm[0] == 'max' else (a and b)
     if e['k'] == 'int':
         return isinstance(e.get('v'), int) and e['v'] >= 0
+    if selfref is not None and e['k'] == 'ref' and e.get('did') == selfref[0]:
+        return selfref[2]()
     return e['k'] in ('ref', 'member') and q.render(fn, e) in nonneg_names
 
 
@@ -1154,7 +1158,7 @@ def _clamp_ifs(fn, var, want):
     return out
 
 
-def local_bounded_at(fn, did, name, use, upper=None, lower0=False, nonneg_names=()):
+def local_bounded_at(fn, did, name, use, upper=None, lower0=False, nonneg_names=(), _depth=0):
     """Is local `name` bounded at `use`: every definition or clamp-if that can be the LAST one evaluated before the use
     establishes name <= upper (when given) and name >= 0 (when lower0).  Returns (ok, offending site or None)."""
     defs = q.local_defs(fn, did)
@@ -1168,12 +1172,17 @@ def local_bounded_at(fn, did, name, use, upper=None, lower0=False, nonneg_names=
         d = [(s, r) for s, r in defs if s is e]
         if d:
             s, r = d[0]
+            # `start = start < 0 ? 0 : start`: the variable's own earlier value is bounded by whatever bounded it just before
+            # this definition (decided recursively at the definition site)
+            prev_up = lambda s=s: ({upper} if (upper and _depth < 4 and local_bounded_at(fn, did, name, s, upper=upper, lower0=False, nonneg_names=nonneg_names, _depth=_depth + 1)[0]) else set())
+            prev_nn = lambda s=s: bool(_depth < 4 and local_bounded_at(fn, did, name, s, upper=None, lower0=True, nonneg_names=nonneg_names, _depth=_depth + 1)[0])
+            selfref = (did, prev_up, prev_nn)
             if upper:
-                ub = upper_bounds(fn, r)
+                ub = upper_bounds(fn, r, selfref=selfref)
                 okd = upper in ub or '*' in ub
-                if not okd:      # ... unless an upper clamp-if for it was passed earlier and this def keeps the bound (not tracked): no
+                if not okd:
                     return False, s
-            if lower0 and not nonneg(fn, r, set(nonneg_names)):
+            if lower0 and not nonneg(fn, r, set(nonneg_names), selfref=selfref):
                 return False, s
         else:
             # the last event is a clamp-if condition (its false branch): it only establishes ITS side - the other side has
